@@ -51,8 +51,14 @@ def run_verify_family(ctx, quick_n, thorough_n, lookups=False, want=('lib', 'kee
     rng = random.Random(ctx.seed)
     thorough = ctx.tier == 'thorough'
     # 1. design level
-    ctx.mc('MC_Verify', 'MC_Verify_flat_thorough.cfg' if thorough else 'MC_Verify_flat_quick.cfg',
-           timeout=3000)
+    # the three-name family takes about half an hour on 16 cores: C01's thorough tier only; the thorough
+    # tiers of C02 and C07 check their invariants on the two two-name families (plain + look-alike pair)
+    if thorough and ctx.pid == 'C01':
+        ctx.mc('MC_Verify', 'MC_Verify_flat_thorough.cfg', timeout=9000)
+    else:
+        ctx.mc('MC_Verify', 'MC_Verify_flat_quick.cfg', timeout=3000)
+    if thorough:
+        ctx.mc('MC_Verify', 'MC_Verify_flat_pair.cfg', timeout=3000)
     ctx.mc('MC_Verify', 'MC_Verify_nest.cfg')
     # the model with the historical short-circuit must exhibit the C07 defect (faithfulness)
     if thorough or ctx.pid == 'C07':
@@ -80,6 +86,9 @@ def run_verify_family(ctx, quick_n, thorough_n, lookups=False, want=('lib', 'kee
     n2 = thorough_n[1] if thorough else quick_n[1]
     args = [(ctx.seed, i, {'lookups': lookups, 'want': want}) for i in range(n2)]
     out = core.pool_map(drv_verify.one_scenario, args)
+    if ctx.pid == 'C01':
+        # directed family for the last_mtime clause (sub-second distances around last_mtime)
+        out += core.pool_map(drv_verify.last_mtime_family, [(ctx.seed, i, {}) for i in range(max(n2 // 2, 120))])
     recs = [r for o in out for r in o]
     metas = [r.pop('meta') for r in recs]
     # split into several JVM runs to bound memory
@@ -348,6 +357,9 @@ def run_update_family(ctx, n_quick, n_thorough):
         ctx.mc('Update', 'MC_Update_F14fix.cfg', timeout=3000)
         ctx.mc('Update', 'MC_Update_F9.cfg', expect_violation='C03_ExactCover_ModuloF14', coverage=False)
         ctx.mc('Update', 'MC_Update_F8.cfg', expect_violation='C18_NoInternal', coverage=False)
+        ctx.mc('Update', 'MC_Update_F18.cfg', expect_violation='C03_ExactCover_ModuloF14', coverage=False)
+        ctx.mc('Update', 'MC_Update_F23.cfg', expect_violation='C18_NoInternal', coverage=False)
+        ctx.mc('Update', 'MC_Update_F20.cfg', expect_violation='C18_NoInternal', coverage=False)
     # spec -> code: exported behaviours replayed into the real loader
     behs = _export(ctx, 'Update', 'MC_Update.cfg', [], sample=(6000 if thorough else 700), rng=rng)
     out = core.pool_map(d.replay_update, list(enumerate(behs)))
@@ -366,6 +378,7 @@ def run_update_family(ctx, n_quick, n_thorough):
         recs += [r for o in out for r in o]
     g = max(n // 4, 40)
     out = core.pool_map(d.lookalike_update, [(ctx.seed, i, {}) for i in range(g)])
+    out += core.pool_map(d.twin_update, [(ctx.seed, i, {}) for i in range(g)])
     out += core.pool_map(d.canon_group, [(ctx.seed, i, {}) for i in range(g)])
     out += core.pool_map(d.transparent_group, [(ctx.seed, i, {}) for i in range(g)])
     recs += [r for o in out for r in o]
@@ -440,6 +453,8 @@ def c11(ctx):
     thorough = ctx.tier == 'thorough'
     ctx.mc('MC_Incremental', 'MC_Incremental.cfg' if thorough else 'MC_Incremental_quick.cfg', timeout=3000)
     ctx.mc('MC_Incremental', 'MC_Incremental_F2.cfg', expect_violation='IncEqualsFull', coverage=False)
+    # ... and the short-cut that ignored the entry's hash set (F27)
+    ctx.mc('MC_Incremental', 'MC_Incremental_F27.cfg', expect_violation='IncEqualsFull', coverage=False)
     n = 12000 if thorough else 700
     out = core.pool_map(d.one_history, [(ctx.seed, i, {}) for i in range(n)])
     recs = [r for o in out for r in o]
@@ -528,11 +543,13 @@ def c14(ctx):
     homes = d.build_homes()
     try:
         cases = d.all_cases(rng, thorough)
-        hp = {'H': homes['H'].path, 'Hpub': homes['Hpub'].path, 'a': homes['a'], 'b': homes['b']}
+        hp = {'H': homes['H'].path, 'Hpub': homes['Hpub'].path, 'Hlock': homes['Hlock'].path,
+              'a': homes['a'], 'b': homes['b'], 'la': homes['la'], 'lb': homes['lb']}
         out = core.pool_map(d.one_case, [(c, hp, ctx.seed) for c in cases], chunksize=1)
     finally:
         homes['H'].close()
         homes['Hpub'].close()
+        homes['Hlock'].close()
     recs = [r for o in out for r in o]
     metas = [r.pop('meta') for r in recs]
     ctx.judge('TraceSigning', 'TraceSigning.cfg', recs, metas, {'module': 'TraceSigning'},
